@@ -89,6 +89,7 @@ theorem C02_derva_slice (v : View) (a : Addr) (size align len : Nat) (hp : isPow
     (v.dervaSlice a size align len).Clean := by
   unfold View.dervaSlice
   refine Out.clean_ite (Out.clean_err _) ?_
+  refine Out.clean_ite (Out.clean_err _) ?_
   rcases v.at_clean a (size * len) align hp with ⟨r, h⟩ | ⟨e, h⟩ <;> rw [h]
   · exact Out.clean_ok _
   · exact Out.clean_err _
